@@ -32,7 +32,8 @@ def cases(draw, tier="quick"):
     return dict(spec=spec, gradp=draw(st.booleans()), reactions=draw(st.booleans()), floor=draw(st.booleans()),
                 source=draw(st.sampled_from(["list", "plt_Y", "plt_IR"])),
                 out=draw(st.sampled_from(["explicit", "explicit", "default", "default_slash", "default_nochk"])),
-                sched=dict(exec=[draw(st.lists(st.integers(0, 7), max_size=4)) for _ in range(nlev)], lazy=draw(st.booleans())))
+                sched=dict(exec=[draw(st.lists(st.integers(0, 7), max_size=4)) for _ in range(nlev)], lazy=draw(st.booleans())),
+                how=draw(st.sampled_from(["api", "api", "cli"])))
 
 
 def compact(case):
@@ -65,7 +66,15 @@ def run(case, chkdir, pltdir, poison, sched):
     pools.set_schedule(sched)
     try:
         with poisoned_empty(poison):
-            qcall(c2p.chk2plt, chkdir, **kw)
+            if case.get("how") == "cli":
+                import amr_kitchen.chk2plt.cli as cli
+                # -ip switches the pressure gradient OFF, -f switches the rescaling OFF (store_false flags), -ir switches reactions ON
+                argv = ["chk2plt", "-c", chkdir] + ([] if case["gradp"] else ["-ip"]) + (["-ir"] if case["reactions"] else []) \
+                    + ([] if case["floor"] else ["-f"]) + (["-o", pltdir] if pltdir else [])
+                argv += ["-s"] + sp if case["source"] == "list" else ["-p", "refplt"]
+                common.run_main(cli.main, argv)
+            else:
+                qcall(c2p.chk2plt, chkdir, **kw)
     finally:
         pools.set_schedule(None)
 
@@ -81,7 +90,7 @@ def check_case(case, ctx):
     elif case["source"] == "plt_IR":
         write_reference_plotfile("refplt", ["density", "temp"] + [f"I_R({s})" for s in sp])
     labs = chk.labels()
-    ctx.label(*labs, "source:" + case["source"], "out:" + case["out"], f"ghost{chk.nghost}",
+    ctx.label(*labs, "source:" + case["source"], "out:" + case["out"], f"ghost{chk.nghost}", "how:" + case.get("how", "api"),
               "gradp" if case["gradp"] else "no-gradp", "reactions" if case["reactions"] else "no-reactions",
               "floor" if case["floor"] else "no-floor")
     ctx.nontrivial(chk.nlev >= 2 or any(":" in x for x in labs) or "state/gradp-layouts-differ" in labs)
